@@ -144,8 +144,30 @@ def big_jobs(ctx):
     return out
 
 
+def alt_modulus_fields(ctx):
+    """fields of an order already used above, built from ANOTHER irreducible modulus (the second and third smallest): per-field
+    state of the square-root code (cached non-residues, Tonelli-Shanks parameters) must not leak between fields of one order"""
+    from mpyc import gfpx
+    out = []
+    for p, d in [(3, 2), (5, 2), (7, 2), (3, 4), (11, 2), (5, 3), (3, 3)] + ([(13, 2), (3, 6), (7, 3)] if ctx.thorough else []):
+        poly = gfpx.GFpX(p)
+        m = poly(irreducible_int(p, d))
+        for _ in range(2):
+            m = poly.next_irreducible(m)
+            if m.degree() != d:
+                break
+            out.append(fc.field(p, list(m)))
+    return out
+
+
+def irreducible_int(p, d):
+    from mpyc import finfields
+    return finfields.find_irreducible(p, d)
+
+
 def run(ctx):
     jobs = [(w, list(range(w.q))) for w in fields_for(ctx)] + big_jobs(ctx)
+    jobs += [(w, list(range(w.q))) for w in alt_modulus_fields(ctx)]
     lines, meta, reals = [], [], []
     for w, els in jobs:
         ctx.count(f'field:{w.kind}:q%4={w.q % 4}')
